@@ -52,10 +52,10 @@ func init() {
 				}},
 				{Name: "fd-small-universe", N: 40, Run: c16Small},
 				{Name: "fd-chunk-boundaries", N: 9 * c.Pick(200, 20000), Run: c16Chunks},
-				{Name: "fd-keyzoo", N: c.Pick(10000, 1500000), Run: c16Zoo},
-				{Name: "countprefixes", N: c.Pick(6000, 800000), Run: c16Count},
-				{Name: "long-keys", N: len(c16LongLens) * c.Pick(2, 200), Run: c16LongKeys},
-				{Name: "many-keys", N: c.Pick(1, 12), Run: c16ManyKeys},
+				{Name: "fd-keyzoo", Env: 6, N: c.Pick(10000, 1500000), Run: c16Zoo},
+				{Name: "countprefixes", Env: 4, N: c.Pick(6000, 800000), Run: c16Count},
+				{Name: "long-keys", Env: 2, N: len(c16LongLens) * c.Pick(2, 200), Run: c16LongKeys},
+				{Name: "many-keys", Env: 1, N: c.Pick(1, 12), Run: c16ManyKeys},
 			}
 		},
 	})
